@@ -892,6 +892,85 @@ def r_optkey(prog, R):
     r.require(n >= 1, "ares_dns_rr_set_opt_own: early exit of the option scan not found")
 
 
+def r_rcodefinal(prog, R):
+    r = R.rule("R-C04-RCODEFINAL", "the response code a parsed message reports is settled from the complete 12-bit wire value: every function that writes the raw response code either stores "
+               "the reported code on every path afterwards, or the message parser stores it on every path from the calls that can reach that writer to its success return "
+               "(an OPT record seen later extends the header's four bits; an unassigned value is reported as SERVFAIL, never as the bare header bits)", floor=3,
+               analysis="writers of ares_dns_record.raw_rcode by field; must-pass-through search from the write (or from the calls reaching the writer, in ares_dns_parse_buf) to the exit with "
+                        "stores to ares_dns_record.rcode as barriers; failing returns end a path")
+    def store_to(el, field):
+        return el["k"] == "asg" and is_field(el["e"]["l"], field, "ares_dns_record")
+    writers = {}
+    for f in prog.funcs.values():
+        if not f.file.startswith("src/lib/record/"):
+            continue
+        for b, i, el in f.elements():
+            if store_to(el, "raw_rcode"):
+                writers.setdefault(f.key, (f, []))[1].append((b, i, el))
+    if not r.require(len(writers) >= 2, "writers of raw_rcode (header and OPT parser) not found"):
+        return
+    top = prog.func("ares_dns_parse_buf")
+    # functions from which a writer is reachable
+    reach = {k for k in writers}
+    changed = True
+    while changed:
+        changed = False
+        for f in prog.funcs.values():
+            if f.key in reach or not f.file.startswith("src/lib/record/"):
+                continue
+            for b, i, c in f.calls():
+                t = prog.resolve(f, c)
+                if t is not None and t.key in reach:
+                    reach.add(f.key)
+                    changed = True
+                    break
+    def barrier_local(el):
+        return store_to(el, "rcode")
+    def barrier_top(el):
+        if store_to(el, "rcode"):
+            return True
+        return el["k"] == "ret" and name_of_const(el.get("e")) != "ARES_SUCCESS"
+    unsettled = []
+    for k, (f, ws) in sorted(writers.items()):
+        local = all(can_reach_exit_avoiding(f, b, i, barrier_local) is None for b, i, el in ws)
+        key = "fn=%s raw response code settled" % f.name
+        if local:
+            r.ok(key, f.loc(ws[0][2]), note="in the writer itself")
+        else:
+            unsettled.append((f, ws, key))
+    if unsettled:
+        bad = None
+        n = 0
+        for b, i, c in top.calls():
+            t = prog.resolve(top, c)
+            if t is None or t.key not in reach or t.key == top.key:
+                continue
+            n += 1
+            tr = can_reach_exit_avoiding(top, b, i, barrier_top)
+            if tr is not None and bad is None:
+                bad = (c, tr)
+        r.require(n >= 2, "ares_dns_parse_buf: calls reaching the raw_rcode writers not found")
+        for f, ws, key in unsettled:
+            if bad is None:
+                r.ok(key, f.loc(ws[0][2]), note="by ares_dns_parse_buf after the last section")
+            else:
+                c, tr = bad
+                r.viol(key, f.name, f.loc(ws[0][2]), "%s writes the raw response code without settling the reported one on every path, and ares_dns_parse_buf returns success after %s (line %s) on a path "
+                       "without a store to the reported code: a message whose OPT record extends the code to an unassigned value is reported with the bare header bits" % (f.name, c.get("callee"), c["ln"]),
+                       trail=[top.loc(top.blocks[x].els[0]) for x in tr if top.blocks[x].els][:8])
+    # the settling store maps an unassigned value to SERVFAIL
+    vals = set()
+    for f in [top] + [w[0] for w in writers.values()]:
+        for b, i, el in f.elements():
+            if store_to(el, "rcode"):
+                vals.add(render(strip(el["e"].get("r"))))
+    key = "an unassigned wire value is reported as SERVFAIL"
+    if any("ARES_RCODE_SERVFAIL" in v for v in vals) and any("raw_rcode" in v for v in vals):
+        r.ok(key, top.loc(top.ln))
+    else:
+        r.viol(key, top.name, top.loc(top.ln), "the parser's stores to the reported response code (%s) no longer include both the raw value and the SERVFAIL fallback" % sorted(vals))
+
+
 def run(prog, R, tier):
     R.assume("tables/iana.json reproduces the IANA registries and RFC bit layouts correctly (written from the RFCs, not from the code)")
     r_bits(prog, R)
@@ -908,6 +987,7 @@ def run(prog, R, tier):
     r_namelen(prog, R)
     r_optdup(prog, R)
     r_optkey(prog, R)
+    r_rcodefinal(prog, R)
     codecrules.r_preslimit(prog, R, "R-C04-PRESLIMIT")
     codecrules.r_suffix(prog, R, "R-C04-SUFFIX")
     codecrules.r_blank(prog, R, "R-C04-BLANK")
